@@ -14,7 +14,7 @@ RULE = ('worlds = every combination of 3 declaration chains out of a menu of '
         '8 (nested suites to depth 3, layer/level on suites, classes and '
         'instances, string layer names; layers L1, L2(L1), L3) x {all layers '
         'can be torn down, L1 cannot (later layers are resumed in children)} x '
-        '12 filter vectors (-t, --layer, level switches, -u/-f) x 5 '
+        '16 filter vectors (-t, --layer, level switches, -u/-f alone and with --layer) x 5 '
         'repeat/shuffle vectors x {sequential, -j2, -j3}, plus --list-tests '
         'for every filter x shuffle vector; plus every ordered pair of 15 layer names that are not plain identifiers (dots, regex metacharacters, blanks) x {sequential, resumed, -j2, -j3} '
         '- '
@@ -46,7 +46,11 @@ MENU = [
 ]
 FILTERS = [[], ['-t', 'q0'], ['-t', 'q1|q2 '], ['-t', '!q0'],
            ['--layer', 'L1$'], ['--layer', '!L2'], ['--at-level', '2'],
-           ['--all'], ['--only-level', '2'], ['-u'], ['-f'], ['-u', '-f']]
+           ['--all'], ['--only-level', '2'], ['-u'], ['-f'], ['-u', '-f'],
+           # unit switches combined with --layer patterns that do / do not
+           # accept the unit layer's name
+           ['-f', '--layer', '!L2'], ['-f', '--layer', '.'], ['-u', '--layer', 'L1'],
+           ['-f', '--layer', 'layer']]
 RUNOPTS = [[], ['--repeat', '2'], ['--repeat', '3'],
            ['--shuffle', '--shuffle-seed', '7'],
            ['--shuffle', '--shuffle-seed', '7', '--repeat', '2']]
@@ -63,6 +67,12 @@ def cases(tier, seed):
         for nie in (False, True):
             for fi in range(len(FILTERS)):
                 yield [w, nie, fi]
+    # the same with one erroring / failing test early in the run: an outcome
+    # must not change which other tests run (no -x here)
+    for w in worlds.rot(ws, seed)[:16]:
+        for nie in (False, True):
+            for bad in ('error', 'fail'):
+                yield [w, nie, 0, bad]
     for rk in DISK_ROOTS:
         for fi in range(len(DISK_FILTERS)):
             yield ['disk', rk, fi]
@@ -278,8 +288,16 @@ def run_case(case):
     if case[0] == 'names':
         viol = run_names_case(case[1], case[2])
         return {'evals': 1, 'nontrivial': 1, 'violations': viol, 'outcome': ('names', case[2])}
-    w, nie, fi = case
+    w, nie, fi = case[:3]
     spec = build(w, nie)
+    if len(case) > 3:
+        # the first test that runs (L1 is first in layer order when it has
+        # tests, the unit layer otherwise) errors / fails
+        d0 = refmodel.declared(spec)
+        order = sorted(d0, key=lambda t: (d0[t][0] != refmodel.UNIT, d0[t][0], t))
+        for t in spec['tests']:
+            if t['n'] == order[0]:
+                t['s'] = case[3]
     flt = FILTERS[fi]
     sv = monitors.SpecView(spec)
     decl = refmodel.declared(spec)
